@@ -198,7 +198,7 @@ pub fn random_scene(rng: &mut Rng, idx: u64) -> Scene {
 pub fn run(ctx: &mut Ctx) {
   let thorough = ctx.thorough();
   let seed = ctx.seed;
-  let n: u64 = if thorough { 20_000 } else { 640 };
+  let n: u64 = if thorough { 20_000 } else { 1_920 };
   let mut evaluations = 0u64;
   let mut pixels = 0u64;
   let mut with_window = 0u64;
